@@ -26,6 +26,42 @@ def run(ctx, F, cg):
     sr.flag_selected_accumulators(ctx, F, cg, "R01e")
     ctx.rule("R01f", "OPTIONAL MATCH keeps every left row: the left outer join resets each of its per-left-row flags (fields it sets `true` while probing a row) wherever it advances to the next left row")
     sr.per_row_flags_reset(ctx, F, cg, "R01f")
+    ctx.rule("R01g", "an aggregate never drops its DISTINCT: in the constructor of the aggregate state, the distinct flag is matched as a wildcard only for aggregates that do not depend on multiplicity (min, max) — `(Sum, _)` means sum(DISTINCT x) sums the duplicates too")
+    an = F.fn_opt("query::executor::operator::AggregatorState::new")
+    if an is None:
+        ctx.anchor_failure("R01g", "AggregatorState::new")
+    else:
+        ctx.saw_fn(an["path"])
+        IDEMP = {"Min", "Max"}
+        ms_ = [m for m in F.arms(an["path"]) if "AggregateType" in m["sty"]]
+        if not ms_:
+            ctx.anchor_failure("R01g", "match over (AggregateType, distinct) in AggregatorState::new")
+        else:
+            covered_true = set()
+            wild_before = {}
+            order = []
+            for arm in ms_[0]["arms"]:
+                pt = arm["pat"]
+                if pt.get("k") != "tuple" or len(pt["e"]) != 2:
+                    continue
+                kinds = [v.rsplit("::", 1)[-1] for v in _variants(pt["e"][0])]
+                flag = pt["e"][1]
+                lit = [l for l in arm["lits"]]
+                is_true = flag.get("k") == "lit" and "true" in str(flag) or (flag.get("k") not in ("wild", "bind") and "b:true" in lit and "b:false" not in lit)
+                is_wild = flag.get("k") in ("wild", "bind")
+                for kd in kinds:
+                    order.append((kd, "true" if is_true else ("wild" if is_wild else "other")))
+            seen_true = set()
+            bad = []
+            for kd, fl in order:
+                if fl == "true":
+                    seen_true.add(kd)
+                elif fl == "wild" and kd not in seen_true and kd not in IDEMP:
+                    bad.append(kd)
+            if bad:
+                ctx.violation("R01g", "AggregatorState::new|distinct-ignored|" + ",".join(sorted(set(bad))), where(an), "the aggregate state for %s is built without looking at the DISTINCT flag: %s(DISTINCT x) counts duplicate inputs" % (sorted(set(bad)), sorted(set(bad))[0].lower()))
+            else:
+                ctx.ok("R01g", "AggregatorState::new", "every multiplicity-sensitive aggregate has a DISTINCT arm before its wildcard arm (%d arms)" % len(order))
     ctx.rule("R01d", "every IndexScanOperator built by the planner is given the pattern's labels (with_labels)")
     # ---- R01a ------------------------------------------------------------------------------------------
     ini = [r for p, r in F.fns.items() if p == OPS + "NodeScanOperator::initialize"]
@@ -142,3 +178,17 @@ def _delegates(F, fn, variant):
                 if any(c.endswith("operator::eval_expression") for c in arm["calls"]):
                     return True
     return False
+
+
+def _variants(p):
+    k = p.get("k")
+    if k == "variant":
+        return [p["p"]]
+    if k in ("or", "tuple"):
+        out = []
+        for e in p["e"]:
+            out += _variants(e)
+        return out
+    if k == "bind" and p.get("sub"):
+        return _variants(p["sub"])
+    return []
